@@ -66,6 +66,11 @@ def run_shard(args):
             sp2 = specgen.plant_corners(specgen.unshare_jobs(spec), rng)
             if specgen.spec_is_safe(sp2, realsys.unit_info):
                 spec = sp2
+        elif cornered and i % 6 == 2 and len(spec["patterns"]) >= 2:
+            # two usage patterns whose UTC series start together and have the same length, one of them skipping an hour
+            sp2 = specgen.plant_dst_pair(spec, rng)
+            if specgen.spec_is_safe(sp2, realsys.unit_info):
+                spec = sp2
         st, obs, rs = kcalc.real_outcome(spec)
         if probe_fixed and st == "ok" and rng.random() < 0.6:
             spec2 = probe_fixed_count(spec, obs, rng)
